@@ -9,7 +9,30 @@ CHANNELS = [0, 1, 255, 256, 32767, 32768, 65534, 65535]
 NAME_ALPHA = ''.join(sorted(refspec.NAME_CHARS))
 
 
+def _magic():
+    from . import magic
+    return magic.pool()
+
+
+def magic_names(kind):
+    """Pool strings that are valid names of this kind (they satisfy the
+    send-side constraints as refspec states them)."""
+    limit = min(refspec.LIMITS[kind], 255)
+    out = []
+    for s in _magic().strs:
+        if len(s) > limit or len(s.encode('utf-8', 'surrogatepass')) > 255:
+            continue
+        if kind != refspec.VHOST and not set(s) <= refspec.NAME_CHARS:
+            continue
+        out.append(s)
+    return out
+
+
 def rchannel(rnd):
+    if rnd.random() < 0.05:
+        v = _magic().rint(rnd, 0, 65535)
+        if v is not None:
+            return v
     return rnd.choice(CHANNELS) if rnd.random() < 0.5 \
         else rnd.randint(0, 65535)
 
@@ -29,6 +52,14 @@ def rname(rnd, kind):
     else:
         n = rnd.randint(0, 20)
     n = min(n, 255)         # shortstr wire limit (queue limit 256 > 255)
+    if k > 0.9:
+        names = magic_names(kind)
+        if names:
+            s = rnd.choice(names)
+            if rnd.random() < 0.4:
+                s = (s + ''.join(rnd.choice(NAME_ALPHA) for _ in range(
+                    rnd.randint(1, 5))))[:min(limit, 255)]
+            return s
     if kind == refspec.VHOST:
         return gv.rstr_bytes(rnd, n, 'ascii')
     return ''.join(rnd.choice(NAME_ALPHA) for _ in range(n))
@@ -44,15 +75,31 @@ def rarg(rnd, spec, name, wtype, big=False):
     if wtype == 'bit':
         return rnd.random() < 0.5
     if wtype == 'octet':
+        if rnd.random() < 0.06:
+            v = _magic().rint(rnd, 0, 255)
+            if v is not None:
+                return v
         return rnd.choice(gv.width_points(8, False)) if rnd.random() < 0.6 \
             else rnd.randint(0, 255)
     if wtype == 'short':
+        if rnd.random() < 0.06:
+            v = _magic().rint(rnd, 0, 65535)
+            if v is not None:
+                return v
         return rnd.choice(gv.width_points(16, False)) if rnd.random() < 0.6 \
             else rnd.randint(0, 65535)
     if wtype == 'long':
+        if rnd.random() < 0.06:
+            v = _magic().rint(rnd, 0, 2**32 - 1)
+            if v is not None:
+                return v
         return rnd.choice(gv.width_points(32, False)) if rnd.random() < 0.6 \
             else rnd.randint(0, 2**32 - 1)
     if wtype == 'longlong':
+        if rnd.random() < 0.06:
+            v = _magic().rint(rnd, -2**63, 2**63 - 1)
+            if v is not None:
+                return v
         return rnd.choice(gv.width_points(64, True)) if rnd.random() < 0.6 \
             else rnd.randint(-2**63, 2**63 - 1)
     if wtype == 'shortstr':
@@ -76,8 +123,44 @@ def rarg(rnd, spec, name, wtype, big=False):
     raise ValueError(wtype)
 
 
-def assignment(rnd, spec, big=False):
-    return {n: rarg(rnd, spec, n, t, big) for n, t, _ in spec.args}
+_RANGES = {'octet': (0, 255), 'short': (0, 65535), 'long': (0, 2**32 - 1),
+           'longlong': (-2**63, 2**63 - 1)}
+
+
+def magic_arg(rnd, spec, name, wtype):
+    """A valid value for this argument taken from the live dictionary, or
+    NotImplemented when the dictionary has nothing for it."""
+    kind, fixed = constraint_of(spec, name)
+    if kind == refspec.FIXED:
+        return fixed
+    if kind is not None:
+        names = magic_names(kind)
+        return rnd.choice(names) if names else NotImplemented
+    if wtype in _RANGES:
+        v = _magic().rint(rnd, *_RANGES[wtype])
+        return NotImplemented if v is None else v
+    if wtype == 'shortstr':
+        v = _magic().rstr(rnd, 255)
+        return NotImplemented if v is None else v
+    if wtype == 'longstr':
+        v = _magic().rstr(rnd, 70000)
+        return NotImplemented if v is None else v
+    if wtype == 'table':
+        m = _magic()
+        return {(m.rstr(rnd, 255, 128) or 'k'): rnd.choice(
+            [m.rstr(rnd, 70000), m.rint(rnd, -2**63, 2**63 - 1),
+             rnd.random() < 0.5, None]) for _ in range(rnd.randint(1, 3))}
+    return NotImplemented
+
+
+def assignment(rnd, spec, big=False, magic=0.0):
+    out = {}
+    for n, t, _ in spec.args:
+        v = NotImplemented
+        if magic and rnd.random() < magic:
+            v = magic_arg(rnd, spec, n, t)
+        out[n] = rarg(rnd, spec, n, t, big) if v is NotImplemented else v
+    return out
 
 
 def boundary_values(rnd, spec, name, wtype):
@@ -91,24 +174,33 @@ def boundary_values(rnd, spec, name, wtype):
         if kind == refspec.VHOST:
             out.append('é' * 127)         # 127 chars, 254 bytes
             out.append('/')
-        return out
+        return out + magic_names(kind)
     if wtype == 'bit':
         return [False, True]
     if wtype == 'octet':
-        return gv.width_points(8, False)
+        return sorted(set(gv.width_points(8, False))
+                      | set(_magic().ints_in(0, 255)))
     if wtype == 'short':
-        return gv.width_points(16, False)
+        return sorted(set(gv.width_points(16, False))
+                      | set(_magic().ints_in(0, 65535)))
     if wtype == 'long':
-        return gv.width_points(32, False)
+        return sorted(set(gv.width_points(32, False))
+                      | set(_magic().ints_in(0, 2**32 - 1)))
     if wtype == 'longlong':
-        return gv.width_points(64, True)
+        return sorted(set(gv.width_points(64, True))
+                      | set(_magic().ints_in(-2**63, 2**63 - 1)))
     if wtype == 'shortstr':
         return [gv.rstr_bytes(rnd, n, a) for n in gv.SHORT_LENS
-                for a in ('ascii', 'latin2', 'bmp3', 'astral4', 'ctrl')]
+                for a in ('ascii', 'latin2', 'bmp3', 'astral4', 'ctrl')] \
+            + [m for m in _magic().strs if len(m.encode('utf-8')) <= 255] \
+            + [gv.rstr_bytes(rnd, n, 'ascii') for n in _magic().lengths
+               if n <= 255]
     if wtype == 'longstr':
         return [gv.rstr_bytes(rnd, n, a)
                 for n in (0, 1, 255, 256, 65535, 65536, 70000)
-                for a in ('ascii', 'mixed')]
+                for a in ('ascii', 'mixed')] + list(_magic().strs) \
+            + [gv.rstr_bytes(rnd, n, 'ascii') for n in _magic().lengths
+               if n <= 5000]
     if wtype == 'table':
         return [None, {}, {'': None}, gv.table(rnd, 0, 3),
                 gv.wide_table(rnd, 40), {'d': gv.deep_chain(rnd, 8)}]
@@ -133,6 +225,10 @@ def rprop(rnd, name, wtype):
     if name == 'delivery_mode':
         return rnd.choice([1, 2])
     if name == 'priority':
+        if rnd.random() < 0.1:
+            v = _magic().rint(rnd, 0, 255)
+            if v is not None:
+                return v
         return rnd.choice([0, 1, 9, 255, rnd.randint(0, 255)])
     if name == 'headers':
         k = rnd.random()
@@ -166,5 +262,9 @@ BODY_SIZES = [0, 1, 255, 2**32 - 1, 2**32, 2**63 - 1, 2**63, 2**64 - 1]
 
 
 def rbody_size(rnd):
+    if rnd.random() < 0.08:
+        v = _magic().rint(rnd, 0, 2**64 - 1)
+        if v is not None:
+            return v
     return rnd.choice(BODY_SIZES) if rnd.random() < 0.5 \
         else rnd.randint(0, 2**64 - 1)
